@@ -133,6 +133,20 @@ var decoders = map[string]func(b []byte) (err error, v util.Message, extra strin
 		}
 		return err, m, ""
 	},
+	// the frame as the stream hands it over: a slice of a pooled buffer, with capacity (and stale
+	// bytes of earlier frames) behind its length
+	"parsespare": func(b []byte) (error, util.Message, string) {
+		back := make([]byte, len(b)+96)
+		copy(back, b)
+		for i := len(b); i < len(back); i++ {
+			back[i] = byte(0xa5 ^ i*29)
+		}
+		m, err := of.Parse(back[:len(b)])
+		if err == nil && (m == nil || isNilMsg(m)) {
+			return nil, nil, "neither"
+		}
+		return err, m, ""
+	},
 	"hello": func(b []byte) (error, util.Message, string) {
 		v := new(common.Hello)
 		return v.UnmarshalBinary(b), v, ""
